@@ -15,7 +15,8 @@
 (*   ConvOK          the model's own marker convention satisfies the       *)
 (*                   order-preservation conjunct used to judge the code    *)
 (*   ExpandPaired    a transform with an expand_transform that entered     *)
-(*                   through this API is still directly preceded by it,    *)
+(*                   through this API is still directly preceded by it     *)
+(*                   -- in the SAME configuration (x(7) by xe(7)) --       *)
 (*                   as long as no call separated them on purpose          *)
 (* A history ends after a rejected call, and after a call outside the      *)
 (* documented use (insert with a negative index).                          *)
@@ -42,7 +43,7 @@ OI(op, k, i) == O(op, k, i, 0, 0, "", <<>>, <<>>)
 OpsOf(s) ==
   LET n == Len(s.seq) IN
        {O1(op, k) : op \in {"append", "iadd", "add", "radd"}, k \in Kinds}
-  \cup {O1("addt", "a"), O1("copy", "")}
+  \cup {O1("addt", k) : k \in Kinds \cap {"a", "xp", "xk"}} \cup {O1("copy", "")}
   \cup {OI("insert", k, i) : k \in Kinds, i \in 0..n}
   \cup (IF NegInsert THEN {OI("insert", k, -1) : k \in Kinds \cap {"a", "x"}} ELSE {})
   \cup {OI("pop", "", i) : i \in ((-n - 1)..n) \cup {None}}
